@@ -29,6 +29,8 @@ func main() {
 	switch os.Args[1] {
 	case "bt":
 		cmdBt(os.Args[2:])
+	case "gcsconc":
+		cmdGcsConc(os.Args[2:])
 	case "btconc":
 		cmdBtConc(os.Args[2:])
 	case "lock":
